@@ -35,6 +35,15 @@ type FindingsFile struct {
 	Fixed    []string   `json:"fixed"`
 }
 
+// envDir: seeded-change runs (tools/verify_seed.sh) redirect evidence and replays so that the committed
+// evidence always comes from /repo itself.
+func envDir(k, d string) string {
+	if v := os.Getenv(k); v != "" {
+		return v
+	}
+	return d
+}
+
 func LoadFindings() (*FindingsFile, error) {
 	b, err := os.ReadFile(filepath.Join(VerifRoot, "known_findings.json"))
 	if err != nil {
@@ -155,7 +164,7 @@ func (r *Run) Report(sig, title string, replay any) {
 		return
 	}
 	r.replayN++
-	dir := filepath.Join(VerifRoot, "replays")
+	dir := envDir("VERIF_REPLAY_DIR", filepath.Join(VerifRoot, "replays"))
 	os.MkdirAll(dir, 0o755)
 	path := filepath.Join(dir, fmt.Sprintf("%s-%s-%03d.json", r.ID, r.Tier, r.replayN))
 	doc := map[string]any{"property": r.ID, "sig": sig, "title": title, "replay": replay}
@@ -209,9 +218,10 @@ func (r *Run) Finish() int {
 		"wall_s":      wall,
 		"violations":  r.NViolations(),
 	}
-	os.MkdirAll(filepath.Join(VerifRoot, "evidence"), 0o755)
+	evDir := envDir("VERIF_EVIDENCE_DIR", filepath.Join(VerifRoot, "evidence"))
+	os.MkdirAll(evDir, 0o755)
 	b, _ := json.MarshalIndent(ev, "", " ")
-	if err := os.WriteFile(filepath.Join(VerifRoot, "evidence", r.ID+".json"), b, 0o644); err != nil {
+	if err := os.WriteFile(filepath.Join(evDir, r.ID+".json"), b, 0o644); err != nil {
 		fmt.Println("HARNESS-ERROR cannot write evidence:", err)
 		return 2
 	}
